@@ -75,7 +75,7 @@ def _const(x):
         x = float(x)
         if math.isnan(x) or math.isinf(x):
             return None
-        if x != 0.0 and not _short_decimal(x, 12):
+        if x != 0.0 and not _short_decimal(x, 12) and not os.environ.get('SX_NOPI'):
             # T5: rational multiples of pi and of 1/pi stay exact (pi/180, 180/pi, 2*pi*50, pi*1e-9*f, ...)
             for r, inv in ((x / math.pi, False), (x * math.pi, True)):
                 cands = [Fraction(r).limit_denominator(100000)]
